@@ -1241,6 +1241,47 @@ impl<'a> FnTr<'a> {
                     Ok((format!("(match {} with | some v => v | none => {})", r, a), (**inner).clone()))
                 }
                 "unwrap" | "expect" => Ok((self.act(st, r), (**inner).clone())),
+                // combinators with a pure one-parameter closure
+                "filter" | "map" => {
+                    let cl = match m.args.first() {
+                        Some(Expr::Closure(cl)) if cl.inputs.len() == 1 => cl,
+                        _ => return Err(format!("{}: argument is not a one-parameter closure", name)),
+                    };
+                    let mut env_c = env.clone();
+                    // `filter` passes a reference, `map` the value: both are the value in the model
+                    let pin = match &cl.inputs[0] {
+                        Pat::Reference(r) => &*r.pat,
+                        p => p,
+                    };
+                    let pn = self.pat(pin, inner, &mut env_c)?;
+                    let mut cst = vec![];
+                    if name == "filter" {
+                        let body = match &*cl.body {
+                            Expr::Paren(p) => &*p.expr,
+                            b => b,
+                        };
+                        let (ct, cty) = self.ex(body, &mut env_c, &mut cst, Some(Ty::Bool))?;
+                        if !cst.is_empty() || cty != Ty::Bool {
+                            return Err("filter: closure body must be a pure bool expression".into());
+                        }
+                        Ok((format!("(Option.filter (fun {} => {}) {})", pn, ct, paren(&r)), tr.clone()))
+                    } else {
+                        let want = match &expect {
+                            Some(Ty::Opt(t)) => Some((**t).clone()),
+                            _ => None,
+                        };
+                        let (ct, cty) = self.ex(&cl.body, &mut env_c, &mut cst, want.clone())?;
+                        if !cst.is_empty() {
+                            return Err("map: closure body must be a pure expression".into());
+                        }
+                        let cty = match (&cty, want) {
+                            (Ty::IntLit, Some(w)) => w,
+                            (Ty::IntLit, None) => Ty::Int("i32"),
+                            _ => cty,
+                        };
+                        Ok((format!("(Option.map (fun {} => {}) {})", pn, ct, paren(&r)), Ty::Opt(Box::new(cty))))
+                    }
+                }
                 _ => Err(format!("unsupported Option method {}", name)),
             },
             Ty::Named(tn) => {
